@@ -417,7 +417,7 @@ theorem frame_messageWriteP (m : Msg) (fd : Handle) {w : World} {fid off : Nat} 
 
 /-- The candidate name for counter value `c`. -/
 def cand (env : PEnv) (flags : Option Bytes) (c : Nat) : Bytes :=
-  decimalInt env.now ++ [46] ++ decimal env.pid ++ [95] ++ decimal c ++ [46] ++ env.host ++ flags.getD []
+  decimalInt env.now ++ [46] ++ decimal env.pid ++ [95] ++ decimal (c % gennameWrap) ++ [46] ++ env.host ++ flags.getD []
 
 theorem genname_succ (env : PEnv) (md : Maildir) (flags : Option Bytes) (fuel count : Nat) :
     genname env md flags (fuel + 1) count =
